@@ -3,6 +3,8 @@
 import datetime
 import json
 import math
+import re
+import zlib
 
 
 # --------------------------------------------------------------------------
@@ -90,6 +92,14 @@ class Codec(object):
 
 # --------------------------------------------------------------------------
 
+class ChannelDiff(Exception):
+    """raised out of Env.ev (through the oracle) when two delivery channels disagree; the runner turns it into a failure"""
+
+    def __init__(self, failure):
+        Exception.__init__(self, failure['msg'])
+        self.failure = failure
+
+
 class Env(object):
     """Per-process evaluation harness around the *snapshot* of hotxlfp.
 
@@ -166,9 +176,65 @@ class Env(object):
         self._cells = cells if cells is not None else {}
         self.evals += 1
         try:
-            return p.parse(formula)
+            r = p.parse(formula)
         except Exception as e:  # noqa - an escape is an observation, classified by the caller
-            return ('raised', e)
+            r = ('raised', e)
+        if self.channels and vars and cells is None:
+            self._channel_check(formula, vars, funcs, r)
+        return r
+
+    # -- delivery channels ----------------------------------------------------
+    channels = 0        # N > 0: of every N evaluations that bind variables, one is repeated with the values handed in by
+                        # the cell/range listeners and one with the values returned by custom functions (chosen by a hash
+                        # of the formula and its bindings, so the choice does not depend on what was evaluated before)
+    _IDENT = re.compile(r'[A-Za-z_][A-Za-z_]*\Z')
+    _STRINGS = re.compile(r'("[^"]*"|\'[^\']*\')')
+
+    def _channel_check(self, formula, vars, funcs, r):
+        if '\\' in formula or any(not self._IDENT.match(k) or k in ('TRUE', 'FALSE', 'NULL') for k in vars):
+            return
+        try:
+            key = (formula + repr(sorted((k, repr(enc(v))) for k, v in vars.items()))).encode('utf-8', 'surrogatepass')
+        except Exception:
+            return
+        pick = zlib.crc32(key) % max(2, self.channels)
+        if pick > 1:
+            return
+        names = sorted(vars, key=len, reverse=True)
+        how = 'cell/range listener' if pick == 0 else 'custom function'
+        repl, cells2, funcs2 = {}, {}, dict(funcs)
+        for i, k in enumerate(sorted(vars)):
+            v = vars[k]
+            if pick == 0:
+                if isinstance(v, list):
+                    repl[k] = 'Q%d:S%d' % (100 + 10 * i, 105 + 10 * i)
+                else:
+                    repl[k] = 'Q%d' % (100 + 10 * i)
+                cells2[repl[k]] = v
+            else:
+                fname = 'HXVIA' + 'ABCDEFGHIJKLMNOPQRSTUVWXYZ'[i % 26] + 'ABCDEFGHIJKLMNOPQRSTUVWXYZ'[i // 26 % 26]
+                repl[k] = fname + '()'
+                funcs2[fname] = (lambda v=v: v)
+        pat = re.compile(r'(?<![A-Za-z0-9_$.!:#])(%s)(?![A-Za-z0-9_.!:]|\s*\()' % '|'.join(re.escape(k) for k in names))
+        parts = self._STRINGS.split(formula)
+        n = 0
+        for j in range(0, len(parts), 2):
+            parts[j], c = pat.subn(lambda m: repl[m.group(1)], parts[j])
+            n += c
+        if not n:
+            return
+        text = ''.join(parts)
+        saved, self.channels = self.channels, 0
+        try:
+            o2 = self.evo(text, None, funcs2, cells2 if pick == 0 else None)
+        finally:
+            self.channels = saved
+        o1 = self.out(r)
+        if o1 != o2:
+            raise ChannelDiff(fail(
+                'the same values handed in two ways give different results: %s with variables %s gives %r, but %s with the '
+                'values delivered by the %s gives %r' % (formula, dict((k, enc(v)) for k, v in vars.items()), o1, text, how, o2),
+                o1, o2))
 
     def out(self, r):
         """Normalised, JSON-able outcome of a parse."""
